@@ -59,6 +59,9 @@ type sharedState struct {
 	why      map[ssa.Value]string
 	changed  bool
 	closures map[*ssa.Function][]*ssa.MakeClosure
+	// fieldObjs: "<Type>#<idx>" of a private object's pointer field -> facts about the private object stored there
+	// (conn.server = &copyOfSharedServer: the copy's reference fields still point into shared memory)
+	fieldObjs map[string]*objFact
 }
 
 // objFact: what is known about a private object that received a by-value copy of shared state.
@@ -167,7 +170,7 @@ func (s *sharedState) mark(v ssa.Value, why string) {
 }
 
 // passObj hands the facts about object a (argument of call) to the callee's parameter.
-func (s *sharedState) passObj(of *objFact, a ssa.Value, call ssa.Instruction, param *ssa.Parameter) {
+func (s *sharedState) passObj(of *objFact, a ssa.Value, call ssa.Instruction, param ssa.Value) {
 	killed := map[string]bool{}
 	for k := range of.killed {
 		killed[k] = true
@@ -187,6 +190,41 @@ func (s *sharedState) passObj(of *objFact, a ssa.Value, call ssa.Instruction, pa
 		for k := range pf.killed {
 			if !killed[k] {
 				delete(pf.killed, k)
+				s.changed = true
+			}
+		}
+	}
+	for hp := range of.holds {
+		if _, ok := pf.holds[hp]; !ok {
+			pf.holds[hp] = nil
+			s.changed = true
+		}
+	}
+}
+
+// passField: like passObj, for a pointer to the object stored into field k of a private object.
+func (s *sharedState) passField(of *objFact, a ssa.Value, store ssa.Instruction, k string) {
+	killed := map[string]bool{}
+	for kk := range of.killed {
+		killed[kk] = true
+	}
+	for _, st := range of.holds {
+		for _, kk := range s.killsBefore(a, st, store) {
+			killed[kk] = true
+		}
+	}
+	if s.fieldObjs == nil {
+		s.fieldObjs = map[string]*objFact{}
+	}
+	pf := s.fieldObjs[k]
+	if pf == nil {
+		pf = &objFact{holds: map[string]ssa.Instruction{}, killed: killed, param: true}
+		s.fieldObjs[k] = pf
+		s.changed = true
+	} else {
+		for kk := range pf.killed {
+			if !killed[kk] {
+				delete(pf.killed, kk)
 				s.changed = true
 			}
 		}
@@ -256,6 +294,12 @@ func (s *sharedState) run() {
 								s.mark(x, "reference inside a by-value copy of shared state (."+pth+")")
 							}
 						}
+						if fa, ok := x.X.(*ssa.FieldAddr); ok && isRefType(x.Type()) && !s.shared[x] {
+							if of := s.fieldObjs[fieldKey(fa)]; of != nil && s.objs[x] != of {
+								s.objs[x] = of
+								s.changed = true
+							}
+						}
 						if fa, ok := x.X.(*ssa.FieldAddr); ok && isRefType(x.Type()) && s.fields[fieldKey(fa)] {
 							s.mark(x, "field "+fieldKey(fa)+" holds a shared reference")
 						}
@@ -306,6 +350,15 @@ func (s *sharedState) run() {
 								if _, ok := f.holds[pth]; !ok {
 									f.holds[pth] = x
 									s.changed = true
+								}
+							}
+						}
+						// a pointer to a private object that holds a by-value copy of shared state is kept in a field of another
+						// private object: whoever loads that field later has the same object in hand
+						if of := s.objs[x.Val]; of != nil && !s.shared[x.Val] {
+							if fa, ok := x.Addr.(*ssa.FieldAddr); ok && !s.shared[fa.X] {
+								if k := fieldKey(fa); k != "" {
+									s.passField(of, x.Val, x, k)
 								}
 							}
 						}
